@@ -166,6 +166,51 @@ def run(F, tier, res):
     # ---------- STALE-SYNTAX
     E.add_e1(res, R, {'STALE-SYNTAX'}, 'C15')
     N = R['N']
+    # ---------- COALESCE: adjacent characters share one painted section only if their (syntax style, diff style) pairs agree on
+    # everything the section's final style is computed from - in particular on whether the diff style asks for syntax colours at all
+    co = [q for q in F.fn_bodies if q.endswith('superimpose_style_sections::coalesce')]
+    nco = okco = 0
+    if not co:
+        res.anchor_missing('superimpose_style_sections::coalesce')
+    NEED = {'is_syntax_highlighted', 'ansi_term_style', 'foreground'}
+    for q in co:
+        nco += 1
+        full_eq = False
+        compared = set()
+
+        def scan(fn, depth=0):
+            nonlocal full_eq
+            for _, c in F.calls(fn):
+                cal, full = callee_of(c), callee_full(c)
+                if cal.endswith(('::ne', '::eq')):
+                    if 'syntect::highlighting::Style' in full and 'style::Style' in full:
+                        full_eq = True
+                    for a in c['args'][:2]:
+                        for r in F.trace(fn, a, deep=True):
+                            if r[0] in ('param', 'local') and r[2]:
+                                compared.update(r[2])
+                    if 'for &style::Style' in full or full.rstrip('>').endswith('for style::Style') or "PartialEq for style::Style" in full:
+                        compared.update({'is_syntax_highlighted', 'ansi_term_style'})
+                elif cal in F.fn_bodies and depth < 2 and F.bodies[cal]['mir']['locals'][0] == 'bool':
+                    scan(cal, depth + 1)
+                elif (c.get('resolved') or '') in F.fn_bodies and depth < 2 and F.bodies[c['resolved']]['mir']['locals'][0] == 'bool':
+                    scan(c['resolved'], depth + 1)
+            # direct field comparisons in MIR (binop Eq/Ne on bool / int fields)
+            for blk in F.blocks(fn):
+                for st in blk['s']:
+                    if st[0] == 'assign' and st[2][0] == 'binop' and st[2][1] in ('Eq', 'Ne'):
+                        for o in st[2][2:4]:
+                            for r in F.trace(fn, o, deep=True):
+                                if r[0] in ('param', 'local') and r[2]:
+                                    compared.update(r[2])
+        scan(q)
+        if full_eq or NEED <= compared:
+            okco += 1
+        else:
+            res.violate('COALESCE', 'fn=%s' % q, 'characters are merged into one painted section by a comparison that ignores %s of their style pairs: a run whose diff style does not ask for '
+                        'syntax colours can be merged into a preceding syntax-highlighted run (or vice versa) and painted with its foreground' % sorted(NEED - compared),
+                        where=F.bodies[q]['mir']['span']['at'])
+    res.rule('C15.COALESCE', nco, 1, 'section-merging comparison in superimpose_style_sections::coalesce covers is_syntax_highlighted, the diff style and the syntax foreground (or is full equality)', discharged=okco)
     res.rule('C15.STALE-SYNTAX', N['summary']['events'].get('HDR_HUNK_HANDOFF', 0) + N['summary']['events'].get('SET_SYNTAX', 0), 100,
              'hunk-header hand-offs + language selections explored by E1: language selected since the last file-name change at every hand-off')
     E.evidence(res, R)
